@@ -42,7 +42,7 @@ theorem lookupB_eq (s : State) (n : Nat) :
 
 theorem deliverAB_eq (s : State) (m : WlMsg) (rest : List WlMsg) (hw : s.wireAB = m :: rest) :
     step s .deliverAB =
-      { s with a := (Node.step s.a (.sending 1 .ready)).1,
+      { s with a := (Node.step s.a (.sending 1 1 .ready)).1,
                b := { s.b with server := Server.incoming s.b.server 0 m.full (entriesOf m) },
                wireAB := rest } := by
   simp only [step, hw]
@@ -334,7 +334,7 @@ theorem deliverAB_frame (s : State) (m : WlMsg) (rest : List WlMsg) (hw : s.wire
     (step s .deliverAB).callsA = s.callsA ∧ (step s .deliverAB).putsA = s.putsA ∧
     (step s .deliverAB).callsB = s.callsB ∧ (step s .deliverAB).answered = s.answered ∧
     (step s .deliverAB).errors = s.errors ∧
-    (step s .deliverAB).a = (Node.step s.a (.sending 1 .ready)).1 := by
+    (step s .deliverAB).a = (Node.step s.a (.sending 1 1 .ready)).1 := by
   rw [deliverAB_eq s m rest hw]
   exact ⟨rfl, rfl, rfl, rfl, rfl, rfl, rfl, rfl⟩
 
